@@ -457,7 +457,7 @@ pub fn gen_mixed(r: &mut Rng, max_samples: f64, n_seg: usize) -> History {
     let mut ops = vec![Op::SetTime(tg.request(pick_time(r, fs, max_samples)))];
     // whole histories at other signal scales (fine pitch offsets, large control values)
     // (up to 3e38: the largest level drawn is 1e3 * scale, which must stay finite through b0*x + b1*x1 - a1*y1)
-    let scale = *r.pick(&[1.0f32, 1.0, 1.0, 1e-2, 1e-4, 3e-5, 1e2, 1e20, 3e35, 1e-30]);
+    let scale = *r.pick(&[1.0f32, 1.0, 1.0, 1e-2, 1e-4, 3e-5, 1e2, 1e20, 3e35, 1e-30, 1e-34, 1e-36]);
     let pick_level = |r: &mut Rng| pick_level(r) * scale;
     for _ in 0..n_seg {
         let teff = tg.eff.unwrap().min(10.0) as f64;
@@ -684,7 +684,7 @@ pub fn run(ctx: &Ctx, prop: &str) -> Report {
                 1 => (0.0, -(r.uniform(0.1, 10.0) as f32)),
                 2 => (r.uniform(-3.0, 3.0) as f32, r.uniform(-3.0, 3.0) as f32 + 4.0),
                 3 => (5.0, 4.0),
-                _ => (0.0, r.log_uniform(1e-5, 10.0) as f32 * if r.chance(0.5) { 1.0 } else { -1.0 }),
+                _ => (0.0, (if r.chance(0.15) { r.log_uniform(1e-37, 1e-30) } else { r.log_uniform(1e-5, 10.0) }) as f32 * if r.chance(0.5) { 1.0 } else { -1.0 }),
             };
             let from = if t > 0.0502 { from } else { 0.0 };
             let h = if j % 6 == 5 && (t as f64) * fs as f64 >= 100.0 {
